@@ -770,6 +770,8 @@ class Ev:
                 return v
             return hkey(v)
 
+        if isinstance(op, (ast.Eq, ast.NotEq)) and ((a is None) != (b is None)):
+            return isinstance(op, ast.NotEq)
         if isinstance(op, (ast.Is, ast.IsNot)):
             r = (a is b) or (a is None and b is None)
             if not (a is None or b is None or isinstance(a, bool) or isinstance(b, bool)):
@@ -1124,7 +1126,9 @@ class Ev:
             self.exec(st, env, mod)
 
     def exec(self, st, env, mod):
-        if is_logging_stmt(st):
+        is_print = (isinstance(st, ast.Expr) and isinstance(st.value, ast.Call) and isinstance(st.value.func, ast.Name)
+                    and st.value.func.id == "print" and "builtins.print" in self.intr)
+        if is_logging_stmt(st) and not is_print:
             return
         m = getattr(self, "s_" + type(st).__name__, None)
         if m is None:
